@@ -144,6 +144,19 @@ def lookup(chk, repo, fs):
     chk.ob("R13.1", "HTM.lookup_id::output-int64-same-size", bool(ok), fi.where(), "the output is a new int64 array of ra.size handed to the extension as (ra, dec, out) and returned")
 
 
+def _truth_of(var, tests):
+    """effective truth value the controlling tests give to the plain flag `var` (None if it is not tested)"""
+    for t, lab in tests:
+        tt = t.strip()
+        while tt.startswith("(") and tt.endswith(")"):
+            tt = tt[1:-1].strip()
+        if tt == var or tt in ("%s != 0" % var, "%s == 1" % var):
+            return lab == "T"
+        if tt in ("!" + var, "%s == 0" % var):
+            return lab != "T"
+    return None
+
+
 # ---------------------------------------------------------------------------
 def intersect(chk, repo, fs):
     f = Fn(fs["HTMC::intersect"])
@@ -179,9 +192,9 @@ def intersect(chk, repo, fs):
                     lp = f.loops_over(n)
                     tests = f.tests_over(n)
                     copies[L] = (bool(lp) and ("%s.length()" % L) in render(lp[0].c), tests)
-    okf = copies.get(fl, (False, None))[0] and not [t for t in copies[fl][1] if p_inc in t[0]]
+    okf = copies.get(fl, (False, None))[0] and _truth_of(p_inc, copies[fl][1]) is None
     chk.ob("R13.2", "intersect::full-list-always", bool(okf), f.where, "the fully-inside triangles are always returned, completely")
-    okp = copies.get(pl, (False, None))[0] and (p_inc, "T") in [(t.strip("()"), lab) for t, lab in copies[pl][1]]
+    okp = copies.get(pl, (False, None))[0] and _truth_of(p_inc, copies[pl][1]) is True
     chk.ob("R13.2", "intersect::partial-list-iff-inclusive", bool(okp), f.where, "the partially-overlapping triangles are appended exactly when inclusive is set")
     # count
     cnt = {}
@@ -195,7 +208,7 @@ def intersect(chk, repo, fs):
         both = [d for d in ds if ("%s.length()" % fl) in d[0] and ("%s.length()" % pl) in d[0]]
         only = [d for d in ds if ("%s.length()" % fl) in d[0] and ("%s.length()" % pl) not in d[0]]
         if len(both) == 1 and len(only) == 1:
-            okc = any(lab == "T" and p_inc in t for t, lab in both[0][1]) and any(lab == "F" and p_inc in t for t, lab in only[0][1])
+            okc = _truth_of(p_inc, both[0][1]) is True and _truth_of(p_inc, only[0][1]) is False
     chk.ob("R13.2", "intersect::count-matches-lists", okc, f.where, "the output length is full + partial when inclusive, full otherwise")
     fi = repo.func(H + "HTM.intersect")
     chk.analysed_unit(fi.qualname)
